@@ -22,7 +22,7 @@ pub fn property() -> Property {
             "schedules are explored at the instrumented points (H1), at transport Pendings and through spawn order, on a single-threaded runtime",
             "reference codec; tokio paused clock / current-thread scheduler",
         ],
-        families: vec![(Box::new(WritersFam), 100_000, 2_000_000)],
+        families: vec![(Box::new(WritersFam), 100_000, 2_000_000), (Box::new(FreshBurstFam), 150, 3_000)],
     }
 }
 
@@ -393,6 +393,124 @@ impl Family for WritersFam {
         out.class_if(case.stall.is_some_and(|s| s.1 >= 11), "transport-stalled>10s");
         out.class_if(case.monitor.is_some(), "keep-alive-monitor-running");
         out.class_if(case.tasks.iter().any(|t| t.ops.iter().any(|o| matches!(o, TOp::Send(_)))), "send_data");
+        Ok(out)
+    }
+}
+
+// ------------------------------------------------------------------------------------------
+// family `fresh_burst` (Lab-S): simultaneous first requests on a real client with an empty pool,
+// on a multi-threaded runtime, with runtime threads stalled at generated trace events
+
+use crate::lab_sock::refpeer::{Behaviour, RefServer};
+use crate::lab_sock::{real_client, run_real, socks5_connect, start_socks5, Dest, PASSWORD};
+
+#[derive(Clone, Debug, Serialize, Deserialize)]
+pub struct FreshBurstCase {
+    /// simultaneous requests per round
+    pub n: u8,
+    pub rounds: u8,
+    /// runtime threads are stalled at this many of 1024 client-side trace events ...
+    pub stall_rate: u16,
+    /// ... for up to this many microseconds
+    pub stall_max_us: u16,
+    pub seed: u64,
+}
+
+pub struct FreshBurstFam;
+
+impl Family for FreshBurstFam {
+    type Case = FreshBurstCase;
+    fn name(&self) -> &'static str {
+        "fresh_burst"
+    }
+    fn strategy(&self, _tier: Tier) -> BoxedStrategy<FreshBurstCase> {
+        (2u8..10, 1u8..3, prop_oneof![1 => Just(0u16), 2 => Just(64u16), 2 => Just(256u16), 1 => Just(1024u16)], prop_oneof![Just(200u16), Just(2000), Just(10_000)], any::<u64>())
+            .prop_map(|(n, rounds, stall_rate, stall_max_us, seed)| FreshBurstCase { n, rounds, stall_rate, stall_max_us, seed })
+            .boxed()
+    }
+    fn case_budget_s(&self) -> u64 {
+        180
+    }
+    fn run(&self, case: &FreshBurstCase, _cx: &CaseCtx) -> CaseResult {
+        let mut out = Outcome::new();
+        let c = case.clone();
+        let r: Result<usize, Fail> = run_real(async move {
+            use tokio::io::{AsyncReadExt, AsyncWriteExt};
+            let case = c;
+            let beh = Behaviour { synack: true, echo: true, heartbeat: true, server_settings: true, ..Default::default() };
+            let srv = RefServer::start(PASSWORD, beh).await?;
+            let quiet = anytls_rs::client::SessionPoolConfig { check_interval: tokio::time::Duration::from_secs(3600), idle_timeout: tokio::time::Duration::from_secs(7200), min_idle_sessions: 1 };
+            let client = real_client(srv.addr, anytls_rs::padding::DEFAULT_PADDING_SCHEME, quiet)?;
+            let socks = start_socks5(client.clone()).await?;
+            crate::stall::configure(case.stall_rate as u32, case.stall_max_us as u32, case.seed);
+            let mut res: Result<(), Fail> = Ok(());
+            'rounds: for round in 0..case.rounds {
+                let mut hs = Vec::new();
+                for i in 0..case.n {
+                    hs.push(tokio::spawn(async move {
+                        let mut s = match socks5_connect(socks, &Dest::Name(format!("burst{round}-{i}.test"), 80)).await {
+                            Ok(s) => s,
+                            Err(e) => return Err(format!("reply {:?}", e)),
+                        };
+                        let msg = format!("hello-{round}-{i}");
+                        s.write_all(msg.as_bytes()).await.map_err(|e| e.to_string())?;
+                        let mut b = vec![0u8; msg.len()];
+                        match tokio::time::timeout(tokio::time::Duration::from_secs(40), s.read_exact(&mut b)).await {
+                            Ok(Ok(_)) if b == msg.as_bytes() => Ok(()),
+                            _ => Err("no echo through the tunnel".to_string()),
+                        }
+                    }));
+                }
+                for (i, h) in hs.into_iter().enumerate() {
+                    match h.await {
+                        Ok(Ok(())) => {}
+                        Ok(Err(e)) => {
+                            res = Err(Fail::plain("C11.first", format!("request {i} of {} simultaneous first requests (round {round}) on a fresh client failed although the server accepts every stream: {e}", case.n)));
+                            break 'rounds;
+                        }
+                        Err(e) => {
+                            res = Err(Fail::plain("C11.first", format!("request task: {e}")));
+                            break 'rounds;
+                        }
+                    }
+                }
+            }
+            crate::stall::configure(0, 0, 0);
+            res?;
+            // every session's wire, as the reference server decoded it
+            let conns = srv.conns.lock().unwrap().clone();
+            for (ci, c) in conns.iter().enumerate() {
+                let log = c.lock().unwrap();
+                if !log.auth_ok {
+                    continue;
+                }
+                let frames: Vec<&RFrame> = log.frames.iter().filter(|f| f.cmd != rc::WASTE).collect();
+                ensure!(!frames.is_empty(), "C11.settings", "session {ci}: nothing was sent");
+                ensure!(
+                    frames[0].cmd == rc::SETTINGS,
+                    "C11.settings",
+                    "session {ci} of a burst of {} simultaneous first requests: the first frame is {} instead of the settings frame (wire order: {:?})",
+                    case.n,
+                    describe(frames[0]),
+                    frames.iter().take(8).map(|f| describe(f)).collect::<Vec<_>>()
+                );
+                ensure!(frames.iter().filter(|f| f.cmd == rc::SETTINGS).count() == 1, "C11.contig", "session {ci}: settings frame duplicated");
+                let mut opened = std::collections::HashSet::new();
+                for f in &frames {
+                    if f.cmd == rc::SYN {
+                        opened.insert(f.sid);
+                    }
+                    if f.cmd == rc::PSH {
+                        ensure!(opened.contains(&f.sid), "C11.syn", "session {ci}: a data frame of stream {} precedes the stream's SYN on the wire", f.sid);
+                    }
+                }
+            }
+            Ok(conns.len())
+        });
+        let sessions = r?;
+        out.nt(case.n >= 2);
+        out.class_if(case.stall_rate > 0, "runtime-threads-stalled-at-trace-events");
+        out.class_if(sessions < case.n as usize * case.rounds as usize, "requests-shared-a-brand-new-session");
         Ok(out)
     }
 }
